@@ -71,7 +71,7 @@ def main(ctx, replay=None):
         raise MachineryError(f"C16 explored {res.distinct} states, expected {144*144}")
     ctx.cov["exhaustive"] = True
     ctx.cov["rule"] = ("all 20736 ordered pairs of dictionary trees over keys {a,b}, leaves {0,2}, depth <= 2 (merge); all single-field "
-                       "perturbations over the documented fields x value classes x 3 valid bases x {yaml,json} (validation); non-trivial = "
+                       "perturbations over the documented fields x value classes x 4 valid bases x {yaml,json} (validation); non-trivial = "
                        "both trees non-empty / perturbation other than 'none'")
     ctx.assumptions += ["classes the documentation is silent on (integral floats for integer fields, extra keys in qha.settings or "
                         "mode_gamma) are not generated", "'rejected' = any exception from read_config"]
@@ -111,8 +111,12 @@ def main(ctx, replay=None):
         if n % 5:
             continue
         u, d, m = to_py(row["u"]), to_py(row["d"]), to_py(row["m"])
-        for depth in (1, 2):
-            wrap = (lambda t, extra: {"s": t, **extra}) if depth == 1 else (lambda t, extra: {"e": {"s": t, **extra}})
+        for depth in (1, 2, 4, 6):
+            def wrap(t, extra, depth=depth):
+                out = {"s": t, **extra}
+                for lvl in range(depth - 1):
+                    out = {"e%d" % lvl: out}
+                return out
             uu, dd, mm = wrap(u, {}), wrap(d, {"other": 7}), wrap(m, {"other": 7})
             ctx.count({"u": uu, "d": dd})
             try:
@@ -190,7 +194,9 @@ def main(ctx, replay=None):
     perts = res.load("c16_valid.json")["perturbations"]
     full = copy.deepcopy(default)
     full["qha"]["settings"]["NTV"] = 21
-    bases = [("default", default), ("akimotoite", users[0]), ("full", full)]
+    static = copy.deepcopy(full)
+    static["qha"]["settings"]["static_only"] = True       # a valid setting; both sections stay required with it
+    bases = [("default", default), ("akimotoite", users[0]), ("full", full), ("static_only", static)]
     tmp = Path(tempfile.mkdtemp(prefix="cijverif.c16."))
     try:
         for bname, base in bases:
